@@ -716,6 +716,9 @@ def partitions(seed):
             fails.append(('C15', 'same_blocks', 'asking again for the blocks of a point, after it was handed to an oracle, returns other objects'))
             break
         decomposed.append(z)
+    if d >= 2 and seed % 3 == 0:
+        # the user states an INEQUALITY on a cross-block product: the orthogonality relation on the same product is still imposed, as an equality
+        part.add_constraint(part.get_block(decomposed[0], 1) * part.get_block(decomposed[0], 0) <= 0)
     n_before = len(part.list_of_constraints)
     part.add_partition_constraints()
     new = part.list_of_constraints[n_before:]
